@@ -473,6 +473,46 @@ fn run_replay(opts: &Opts) -> i32 {
     0
 }
 
+/// the real transition optimiser on an arbitrary reachable schedule (C15): per type the cycles it returns
+/// Two inputs per type: the cycles the schedule carries, and the cycles recompute_transitions_for builds
+/// from the same tours. Runs in a thread under a time limit (an optimiser that does not terminate is data).
+fn transopt_event(name: &str, nw: &Arc<Network>, sched: &Schedule) -> Value {
+    use std::sync::atomic::{AtomicBool, Ordering};
+    static GAVE_UP: AtomicBool = AtomicBool::new(false);
+    if GAVE_UP.load(Ordering::SeqCst) {
+        return json!({"ev": "topt", "name": name, "ok": true, "tr": [], "msg": "skipped after a timeout"});
+    }
+    let (tx, rx) = std::sync::mpsc::channel();
+    let (nw2, sched2) = (nw.clone(), sched.clone());
+    std::thread::spawn(move || {
+        let res = guarded(|| {
+            let cycles = |t: &Transition| {
+                t.cycles_iter().map(|c| c.iter().map(|v| v.to_string()).collect::<Vec<_>>()).collect::<Vec<_>>()
+            };
+            let mut runs = Vec::new();
+            for (label, s) in [("as_is", sched2.clone()), ("recomputed", sched2.recompute_transitions_for(None))] {
+                let solver = solver::transition_local_search::build_transition_local_search_solver(&s, nw2.clone());
+                for vt in nw2.vehicle_types().iter() {
+                    let before = s.next_day_transition_of(vt).clone();
+                    let start = solver::transition_local_search::TransitionWithInfo::new(before.clone(), "walk".to_string());
+                    let t = rapid_solve::heuristics::Solver::solve(&solver, start).unwrap().unwrap_transition();
+                    runs.push(json!({"input": label, "ty": type_id(&nw2, vt), "pre": cycles(&before), "cyc": cycles(&t)}));
+                }
+            }
+            runs
+        });
+        let _ = tx.send(res);
+    });
+    match rx.recv_timeout(std::time::Duration::from_secs(90)) {
+        Ok(Ok(tr)) => json!({"ev": "topt", "name": name, "ok": true, "tr": tr, "msg": ""}),
+        Ok(Err(m)) => json!({"ev": "topt", "name": name, "ok": false, "tr": [], "msg": m}),
+        Err(_) => {
+            GAVE_UP.store(true, Ordering::SeqCst);
+            json!({"ev": "topt", "name": name, "ok": false, "tr": [], "msg": "no result within 90 s"})
+        }
+    }
+}
+
 pub fn run(opts: &Opts) -> i32 {
     if opts.get("mode") == Some("replay") {
         return run_replay(opts);
@@ -516,6 +556,9 @@ pub fn run(opts: &Opts) -> i32 {
                             out.emit(&json!({"ev": "op", "name": name, "op": opname, "args": args, "ok": true,
                                 "panic": false, "ret": ret, "hb": hb, "ha": ha, "S": proj}));
                             w.cur = sch;
+                            if done % 4 == 0 || done == steps {
+                                out.emit(&transopt_event(&name, &nw, &w.cur));
+                            }
                         }
                         Err(msg) => {
                             out.emit(&json!({"ev": "op", "name": name, "op": opname, "args": args, "ok": false,
